@@ -1,6 +1,7 @@
 pub mod c01;
 pub mod c02;
 pub mod c03;
+pub mod c03dots;
 pub mod c04;
 pub mod c05;
 pub mod c06;
@@ -43,6 +44,7 @@ pub fn run(id: &str, tier: Tier, seed: u64) -> Option<i32> {
     match id {
         "C01" => Some(c01::run(tier, seed)),
         "C02" => Some(c02::run(tier, seed)),
+        "C03" => Some(c03::run(tier, seed)),
         "C05" => Some(c05::run(tier, seed)),
         "C06" => Some(c06::run(tier, seed)),
         "C07" => Some(c07::run(tier, seed)),
@@ -66,6 +68,7 @@ pub fn run(id: &str, tier: Tier, seed: u64) -> Option<i32> {
 /// replay one saved case; Ok(None) = held, Ok(Some(msg)) = still violated
 pub fn replay(id: &str, v: &serde_json::Value) -> Result<Option<String>, String> {
     match id {
+        "C03" if v["kind"].as_str() == Some("dots") => c03dots::replay(v),
         "C06" => c06::replay(v),
         "C07" => c07::replay(v),
         "C08" => c08::replay(v),
